@@ -17,4 +17,61 @@ PROPS = {
     ),
 }
 
+TB_EXP = ["Go's unicode letter/digit tables (dumped each run; Section variables)",
+          "Flocq 4 binary64 (theorems about float operations depend on the standard library's real-number axioms, classic and functional extensionality, as Print Assumptions reports)",
+          "user functions, methods and writers are oracles (Section variables); the harness instantiates them with a fixed table implemented identically in Go and in ocaml/driver.ml"]
+MOD_EXP = ["exp/parser (ANTLR lexer/parser: accept/reject + accepted tree; error recovery not modelled)", "exp/visitor.go", "exp/reflects.go", "exp/scope.go",
+           "strconv.ParseInt/ParseFloat/Unquote, fmt %v for nil/bool/int/string/slices (floats, maps, structs in text: UNMODELLED -> case skipped and counted)"]
+EVAL_RULE = "expressions from the typed generator of harness/gen_expr.go (all operators, literals in every Go form, variables of every integer/float kind, minimal and random parenthesisation, depth <= 6), instrumented expressions with recording/failing/panicking calls at the leaves, and access paths over a data graph of maps/structs/pointers/slices/arrays; non-trivial = the case is not a bare literal/name (it contains an operator, call or access step); distinct = distinct case lines"
+
+PROPS["C09"] = dict(
+    level="proof", rule=EVAL_RULE,
+    streams=[dict(name="eval", family="eval", quick=4000, thorough=300000, nontrivial=r"."),
+             dict(name="parse", family="parse", quick=4000, thorough=300000, nontrivial=r".")],
+    trusted_base=TB_EXP, modelled=MOD_EXP,
+    assumptions=["operands representable in int64/float64", "generated expressions avoid formatting floats into strings"],
+    level_text="Theorems over the lexer / precedence-climbing parser / evaluator models: the parser groups exactly as the generated ANTLR parser does (print/parse round trip over the whole AST with the levels of goexpression_parser.go), integer operators are the two's-complement int64 operations, mixed operands promote to float64 (Flocq), wrong kinds and division by zero / negative shifts are errors; tied to the code by diffing parse trees and typed results on generated expressions, plus an independent Go reference evaluation as the direct oracle.",
+    level_note="The conditional operator is left-associative in the generated parser: ternary_right_assoc_refuted + KNOWN_FINDINGS (needs ANTLR regeneration). Float text formatting and complex numbers are unmodelled.",
+)
+PROPS["C10"] = dict(
+    level="proof", rule="expression texts: well-formed (minimal/random parentheses, insignificant blanks/comments/newlines after operators), padded, with 27 kinds of trailing suffix, prefix truncations, random mutations and a hostile pool of 190 hand-written texts; directive values with ${} blocks, strings, braces, mutations; non-trivial = every case (all exercise accept/reject); distinct = distinct case lines",
+    streams=[dict(name="parse", family="parse", quick=5000, thorough=300000, nontrivial=r"."),
+             dict(name="code", family="code", quick=3000, thorough=200000, nontrivial=r"."),
+             dict(name="scan", family="scan", quick=2000, thorough=100000, nontrivial=r"^ERR|\(Tag ")],
+    trusted_base=TB_EXP + TB_SCAN, modelled=MOD_EXP + ["html/scan_code.go"],
+    assumptions=["valid UTF-8"],
+    level_text="Theorems: the parser consumes exactly the tokens of the tree it returns and parse_code accepts only when nothing but newline/comment EOS tokens remain; the code scanner accepts end of input only after the closing quote (unterminated ${, strings and quotes are errors); tied to the code by accept/reject + tree diffs on well-formed, suffixed, truncated and mutated inputs.",
+    level_note="ANTLR error recovery is not modelled (any syntax error = rejection); lexer model covers GoLexer.g4 token classes incl. NLSEMI mode.",
+)
+PROPS["C11"] = dict(
+    level="proof", rule=EVAL_RULE,
+    streams=[dict(name="eval", family="eval", quick=4000, thorough=300000, nontrivial=r"."),
+             dict(name="rel", family="rel", quick=3000, thorough=200000, nontrivial=r".")],
+    trusted_base=TB_EXP, modelled=MOD_EXP, assumptions=["non-NaN operands for trichotomy; uint64 values above MaxInt64 excluded (they wrap in IsInt)"],
+    level_text="Theorems on rel_op of the evaluator model: != is the negation of == for all values, exactly one of < == > holds for non-NaN numbers of any integer/float kind, <= and >= are the unions, equality of integers does not depend on the kind; tied to the code by evaluating all six operators on ordered pairs over every kind at boundary and random values.",
+    level_note="Equality of slices/maps/structs/functions (Go's == panics or compares identity) is UNMODELLED and skipped.",
+)
+PROPS["C12"] = dict(
+    level="proof", rule=EVAL_RULE,
+    streams=[dict(name="eval", family="eval", quick=5000, thorough=300000, nontrivial=r"LOG .|ERR")],
+    trusted_base=TB_EXP, modelled=MOD_EXP, assumptions=[],
+    level_text="Theorems on the evaluator model: an error in any evaluated operand is the result of the whole expression (first error wins, cause preserved), nothing is evaluated after it (the call log stops), && || ?: do not evaluate the unselected operand; tied to the code by comparing error class (errors.Is against the injected sentinels / ErrNoSuchValue) and the recorded call log on instrumented expressions.",
+    level_note="Render-level clauses (writer failures, prefix property) are covered by the renderer model streams.",
+)
+PROPS["C13"] = dict(
+    level="proof", rule=EVAL_RULE,
+    streams=[dict(name="eval", family="eval", quick=5000, thorough=300000, nontrivial=r".")],
+    trusted_base=TB_EXP + ["reflect (method sets, FieldByName through embedded structs, unexported fields) is modelled, validated by the correspondence run, not verified"],
+    modelled=MOD_EXP, assumptions=["string-keyed maps; struct types from the harness' fixed family"],
+    level_text="Theorems: get_value agrees with the specification functions for fields, map keys, indexes (negative from the end) and slices on the value model, errors for absent/out-of-range/nil/unexported, never a zero value; tied to the code by a native Go walk over generated data graphs and access paths in all five syntaxes.",
+    level_note="a[i:j] on an array held in an interface is an error in the code (unaddressable) and in the model.",
+)
+PROPS["C14"] = dict(
+    level="proof", rule="string literals: every string over the escape alphabet (quotes, backslash, braces, '$', newline, tab, control, non-ASCII) up to length 3 exhaustively in the thorough tier, random beyond, in each quoting style, evaluated directly and embedded in :text / dynamic attributes with either delimiter; non-trivial = the string contains at least one rune that needs escaping or is non-ASCII; distinct = distinct case lines",
+    streams=[dict(name="strlit", family="strlit", quick=4000, thorough=150000, nontrivial=r".")],
+    trusted_base=TB_EXP, modelled=MOD_EXP + ["strconv.Unquote"], assumptions=["valid UTF-8, NUL-free"],
+    level_text="Theorems: for every string s, lexing quote_dq s / quote_sq s / quote_raw s yields one string token and unquote returns s (raw: s without backquote and CR); tied to the code by evaluating the three literal forms of generated strings directly and inside ${} blocks in attributes with either delimiter.",
+    level_note="Byte escapes >= 0x80 (\\xff) produce invalid UTF-8 and are UNMODELLED.",
+)
+
 NOT_YET = {}
